@@ -5,9 +5,13 @@ pub mod c07;
 pub mod c08;
 pub mod c09;
 pub mod c10;
+pub mod c11;
 pub mod c12;
 pub mod c13;
 pub mod c16;
+pub mod c17;
+pub mod c18;
+pub mod c19;
 pub mod c20;
 pub mod minerhist;
 
@@ -23,11 +27,15 @@ pub fn dispatch(cfg: &Cfg) -> i32 {
         "C08" => c08::run(cfg),
         "C09" => c09::run(cfg),
         "C10" => c10::run(cfg),
+        "C11" => c11::run(cfg),
         "C12" => c12::run(cfg),
         "C13" => c13::run(cfg),
         "C14" => c01_05::run_c14(cfg),
         "C15" => c01_05::run_c15(cfg),
         "C16" => c16::run(cfg),
+        "C17" => c17::run(cfg),
+        "C18" => c18::run(cfg),
+        "C19" => c19::run(cfg),
         "C20" => c20::run(cfg),
         p => {
             eprintln!("no check for property {p}");
